@@ -78,7 +78,7 @@ func runMODES(e *Env) (*Summary, error) {
 	start := time.Now()
 	n := e.n(6000, 250000)
 	bss := []int{1, 2, 3, 5, 32}
-	rule := fmt.Sprintf("%d random statements of the full language (typed generator: scalar functions, lists, aliases referenced in WHERE and inside function arguments, IN/BETWEEN/regex, arithmetic; optional ORDER BY on an alias, LIMIT) over shuffled stores of 0–14 pairs in which some rows fail the filter between accepted ones; each statement runs in row mode and in batch mode at batch sizes %v, with the field cache on and off, and with every alias use replaced by its definition; non-trivial when the statement returns at least one row and rejects at least one; distinct by (statement, store)", n, bss)
+	rule := fmt.Sprintf("%d random statements of the full language (typed generator: scalar functions incl. a user-registered one without a vector form, lists, aliases referenced in WHERE and inside function arguments, IN/BETWEEN/regex, arithmetic; optional ORDER BY on an alias, LIMIT) over shuffled stores of 0–14 pairs in which some rows fail the filter between accepted ones; each statement runs in row mode and in batch mode at batch sizes %v, with the field cache on and off, and with every alias use replaced by its definition; non-trivial when the statement returns at least one row and rejects at least one; distinct by (statement, store)", n, bss)
 	col := NewCollector("MODES", e.Tier, e.Seed, rule)
 	saved := kvql.PlanBatchSize
 	defer func() { kvql.PlanBatchSize = saved }()
@@ -91,8 +91,19 @@ func runMODES(e *Env) (*Summary, error) {
 				o.Json = false
 				o.OrderedBetween = true
 				o.ListFields = true
+				o.UserFunc = true
 				g := NewGen(r, o)
 				q := g.Select()
+				if r.Chance(1, 10) {
+					// the user-registered function without a vector form over an alias, in the filter and in a
+					// later field (the batch evaluator has to evaluate it pair by pair)
+					q = pick(r, []string{
+						"select key, value as v where vmark(v) != '<x>'", "select value as v, vmark(v) as m where m != '<1>' & key >= 'a'",
+						"select upper(value) as u, key where vmark(u) ^= '<A' | vmark(u) = '<3>'", "select key as k, vmark(k) as mk, value where mk ^= '<a' & vmark(value) != '<x>'",
+						"select strlen(value) as n, key where vmark(str(n)) = '<1>' | vmark(key) ^= '<k'", "select value as v, key where vmark(lower(v)) in ('<b>', '<x>', '<2>')",
+					})
+					g.aliases = nil
+				}
 				if r.Chance(1, 12) {
 					// operators whose right operand depends on the row (the vector forms cache per chunk)
 					q = pick(r, []string{
